@@ -639,10 +639,23 @@ def _set_seg(r, seg, from_end):
     r.segax = ax
 
 
-def origin_of(va, vb, r):
+def origin_of(va, vb, r, op=None):
     """origin position of an elementwise combination of arrays"""
     if not isinstance(r, Num):
         return
+    if isinstance(op, (ast.Add, ast.Sub)):
+        # index vector +- integer: the zero of the values moves (value = index - org  =>  value - c = index - (org + c))
+        arr_, sc_ = (va, vb) if (isinstance(va, Num) and va.is_array) else (vb, va)
+        if isinstance(arr_, Num) and arr_.is_array and arr_.org is not None and arr_.org != 'conflict' \
+                and not (isinstance(sc_, Num) and sc_.is_array) and getattr(arr_, 'idx', False) \
+                and (arr_ is va or isinstance(op, ast.Add)):
+            c = _asint(sc_)
+            if c is not None and c.a is not None:
+                r.org = arr_.org + (c.a if isinstance(op, ast.Sub) else -c.a)
+                r.idx = True
+            else:
+                r.org = None        # an index vector shifted by something that is not a known integer
+            return
     oa = va.org if isinstance(va, Num) and va.is_array else None
     ob = vb.org if isinstance(vb, Num) and vb.is_array else None
     a_arr = isinstance(va, Num) and va.is_array
@@ -665,8 +678,27 @@ def e_BinOp(self, n, st):
     b = self.eval(n.right, st)
     r = self.binop(n.op, a, b, n)
     elementwise_seg(n.op, a, b, r)
-    origin_of(a, b, r)
+    origin_of(a, b, r, n.op)
+    grid_of(a, b, r, n.op)
     return r
+
+
+def grid_of(va, vb, r, op):
+    """integer index grids under + and - (with other grids or integers): the affine form is added component-wise"""
+    if not isinstance(r, Num) or not isinstance(op, (ast.Add, ast.Sub)):
+        return
+    def form(v):
+        if isinstance(v, Num) and v.is_array:
+            return v.grid
+        i = _asint(v)
+        if i is not None and i.a is not None:
+            return (F(0), F(0), i.a)
+        return None
+    fa, fb = form(va), form(vb)
+    if fa is None or fb is None or not ((isinstance(va, Num) and va.grid is not None) or (isinstance(vb, Num) and vb.grid is not None)):
+        return
+    sgn = 1 if isinstance(op, ast.Add) else -1
+    r.grid = (fa[0] + sgn * fb[0], fa[1] + sgn * fb[1], fa[2] + fb[2].scale(sgn))
 
 
 # ----------------------------------------------------------------------------- comparisons
@@ -1028,7 +1060,15 @@ def e_Call(self, n, st):
             if args[0].v in kw:
                 return kw[args[0].v]
             return args[1] if len(args) > 1 else Const(None)
-    return self.call(fv, args, kwargs, n, st)
+    self.last_exit = None
+    res = self.call(fv, args, kwargs, n, st)
+    ex, self.last_exit = self.last_exit, None
+    if ex:
+        # the callee wrote into arrays it was handed: the caller's names for that storage see the new contents
+        for name_, v_ in list(st.env.items()):
+            if isinstance(v_, Num) and v_.mid in ex and v_.whole and ex[v_.mid] is not v_:
+                st.env[name_] = ex[v_.mid]
+    return res
 
 
 def eval_args(self, n, st):
@@ -1065,6 +1105,8 @@ def eval_args(self, n, st):
 def do_eval(self, args, st, n):
     """eval(<string>) — resolved only through literal tables (window_names, Criteria.valid_criteria_names)"""
     a = args[0] if args else None
+    if st is None:
+        st = St({}, {})
     if isinstance(a, Const) and isinstance(a.v, str):
         return self.lookup(a.v, st, n)
     if isinstance(a, StrV) and a.choices:
@@ -1272,6 +1314,17 @@ def index_value(self, v, idx, node):
         r = nv.copy(shape=tuple(out), taint=t)
         r.ex = None
         r.col0, r.src_uid = None, None
+        if len(shape) == 1 and len(idxs) == 1 and isinstance(idxs[0], Num) and idxs[0].grid is not None and idxs[0].shape is not None \
+                and len(idxs[0].shape) == 2 and isinstance(v, Num) and v.seg is not None:
+            # x[grid]: entry (i, k) of the result is x[ai*i + ak*k + c]
+            from . import segmap
+            sg = segmap.normalise(v.seg)
+            if len(sg) == 1 and sg[0].w == 1:
+                ai, ak, c = idxs[0].grid
+                s0 = sg[0]
+                r.amap = [(Aff(0), idxs[0].shape[0], Aff(0), idxs[0].shape[1], ai * s0.stride, ak * s0.stride,
+                           s0.start + c.scale(s0.stride), s0.src, bool(v.mirror))]
+                r.seg = None
         if len(shape) == 2 and len(idxs) == 2 and isinstance(idxs[0], SliceV) and idxs[0].lo is None and idxs[0].hi is None \
                 and idxs[0].step is None and isinstance(v, Num):
             from .prims import _int_aff
@@ -1304,6 +1357,10 @@ def index_value(self, v, idx, node):
                         la = _int_aff(ix.lo)
                         lo_abs = segmap.norm_index(la, shape[0]) if la is not None else None
                     r.q = Q.q_slice(nv.q, lo_abs, stp) if (lo_abs is not None or not Q.is_lin(nv.q)) else None
+                    if Q.is_partial(r.q) and r.shape and r.shape[0] is not None and r.shape[0].is_const():
+                        # entries beyond the end of the slice do not belong to it
+                        d_ = {k_: v_ for k_, v_ in r.q[1].items() if k_.is_const() and k_.c < r.shape[0].c}
+                        r.q = ('partial', d_) if d_ else 'any'
                 elif okq and not Q.is_lin(nv.q):
                     r.q = nv.q
             else:
@@ -1361,6 +1418,9 @@ def index_value(self, v, idx, node):
                 if ia is not None and ia.a is not None:
                     r.seg = segmap.getitem(nv.seg, ia.a)
         return r
+    if isinstance(v, Opaque) and v.what == 'globals':
+        # globals()[name]: the same look-up eval(name) performs for a plain identifier
+        return do_eval(self, [idx], None, node)
     if isinstance(v, Opaque):
         return TopV('subscript of opaque', taint_of(v))
     if isinstance(v, TopV):
@@ -1465,6 +1525,17 @@ def comprehension(self, n, st, elt):
 
 
 def e_ListComp(self, n, st):
+    # a comprehension over a short tuple that is known element by element (x.shape, a literal): one result per element
+    if len(n.generators) == 1 and not n.generators[0].ifs:
+        itv = self.eval(n.generators[0].iter, st)
+        if isinstance(itv, Tup) and 0 < len(itv.items) <= 8 and all(isinstance(i, (IntV, Const)) for i in itv.items):
+            out = []
+            for item in itv.items:
+                inner = St(dict(st.env), st.heap)
+                self.bind(n.generators[0].target, item, inner, n)
+                out.append(self.eval(n.elt, inner))
+                st.heap = inner.heap
+            return Tup(out, mutable=True)
     v, count = self.comprehension(n, st, n.elt)
     nv = tonum(v) if not isinstance(v, (Tup, SeqV, Ref, StrV)) else None
     if nv is not None and not (isinstance(v, Const) and v.v is None):
